@@ -60,8 +60,12 @@ def build_history(rnd: Any, max_ops: int, with_update: bool = True, big: bool = 
             op = {'op': 'insert_after', 'ref': rnd.randint(-1, 200), 'new': _texts(rnd, k)}
         elif r < 0.52:
             op = {'op': 'insert_before', 'ref': rnd.randint(-1, 200), 'new': _texts(rnd, k)}
-        elif r < 0.60:
+        elif r < 0.57:
             op = {'op': 'replace', 't': rnd.randint(0, 200), 'new': _texts(rnd, 1)}
+        elif r < 0.585:
+            op = {'op': 'replace_self', 't': rnd.randint(0, 200)}
+        elif r < 0.60:
+            op = {'op': 'replace_attached', 't': rnd.randint(0, 200), 'd': rnd.randint(0, 200)}
         elif r < 0.74:
             op = {'op': 'remove', 'a': rnd.randint(0, 200), 'b': rnd.choice([0, 0, 1, 2, base, 2 * base, 4 * base])}
         elif r < 0.86 and with_update:
@@ -143,6 +147,22 @@ def replay(case: dict, after: Callable[[Any, list, Step], Optional[tuple]], toke
                 expected = model[:i] + new + model[i + 1:]
                 step.removed = [model[i]]
                 call = (lambda i=i, new=new: store.replace(model[i], new[0]))
+            elif kind == 'replace_self':
+                # a token replaced by itself: the sequence is the same list afterwards, and the token still knows its place
+                if n == 0:
+                    continue
+                i = op['t'] % n
+                expected = list(model)
+                call = (lambda i=i: store.replace(model[i], model[i]))
+            elif kind == 'replace_attached':
+                # replaced by a token that lives elsewhere in this store: must be refused
+                if n < 2:
+                    continue
+                i = op['t'] % n
+                j = (i + 1 + op.get('d', 0) % (n - 1)) % n
+                step.must_refuse = True
+                expected = list(model)
+                call = (lambda i=i, j=j: store.replace(model[i], model[j]))
             elif kind == 'remove':
                 if n == 0:
                     continue
